@@ -36,7 +36,9 @@ DayVerdict(e, i) ==
   LET n   == e.days[i]
       ctx == CtxOf(e)
       obs == FromJ(e.tilings[i])
-  IN IF ~Det(e.expr, n, ctx) THEN "undet"
+  IN \* is_constant() answered TRUE for this expression: the day must be one kind, whatever the corner
+     IF e.is_constant /\ InRange(n) /\ ~ConstantDay(e.expr, obs) THEN "constant"
+     ELSE IF ~Det(e.expr, n, ctx) THEN "undet"
      ELSE IF Shape(obs) # Shape(DayTiling(e.expr, n, ctx)) THEN "kind"
      ELSE IF ~CommentsOk(e.expr, n, ctx, obs) THEN "comment"
      ELSE "ok"
@@ -47,9 +49,10 @@ Count(v, x) == Cardinality({i \in DOMAIN v : v[i] = x})
 Report(k) ==
   LET e == Rec[k]
       v == Verdicts(e)
-      bad == {i \in DOMAIN v : v[i] \in {"kind", "comment"}}
+      bad == {i \in DOMAIN v : v[i] \in {"kind", "comment", "constant"}}
   IN /\ PrintT(<<"STAT", ToJson([id |-> e.id, ok |-> Count(v, "ok"), undet |-> Count(v, "undet"),
-                                 kind |-> Count(v, "kind"), comment |-> Count(v, "comment"),
+                                 kind |-> Count(v, "kind"), comment |-> Count(v, "comment"), constant |-> Count(v, "constant"),
+                                 flag |-> e.is_constant, model_flag |-> IsConstant(e.expr),
                                  nontrivial |-> Cardinality({i \in DOMAIN v : v[i] = "ok" /\ Len(e.tilings[i]) > 1}),
                                  commented |-> Cardinality({i \in DOMAIN v : v[i] = "ok" /\
                                                    \E j \in DOMAIN e.tilings[i] : e.tilings[i][j][4] # <<>>})])>>)
